@@ -24,19 +24,52 @@ Stmts == { [n |-> "return",        t |-> "return",                  hdr |-> "def
            [n |-> "while-inline",  t |-> "while False do print(x)", hdr |-> "def f(x: Int) =>"],
            [n |-> "string",        t |-> "\"text\"",                hdr |-> "def f(x: Int) =>"],
            [n |-> "expression",    t |-> "x + 1",                   hdr |-> "def f(x: Int) =>"] }
-Hd == <<L(0, "class E: Exception")>>
+\* statements that span lines (ls: relative indentation, text): every construct with arms or blocks, so that the LAST line of the
+\* construct is an arm / a nested block and the tokens behind it are those that close more than one block at once
+Blocks == { [n |-> "match",         ls |-> <<<<0, "match x">>, <<1, "1 => print(1)">>, <<1, "_ => print(2)">>>>, hdr |-> "def f(x: Int) =>"],
+            [n |-> "match-block-arm", ls |-> <<<<0, "match x">>, <<1, "1 => print(1)">>, <<1, "_ =>">>, <<2, "print(2)">>>>, hdr |-> "def f(x: Int) =>"],
+            [n |-> "def-match",     ls |-> <<<<0, "def y: Int := match x">>, <<1, "1 => 1">>, <<1, "_ => 2">>>>, hdr |-> "def f(x: Int) =>"],
+            [n |-> "handle",        ls |-> <<<<0, "def y: Int := g(x) handle">>, <<1, "err: E => 0">>>>, hdr |-> "def f(x: Int) =>"],
+            [n |-> "handle-block-arm", ls |-> <<<<0, "def y: Int := g(x) handle">>, <<1, "err: E =>">>, <<2, "print(1)">>, <<2, "0">>>>, hdr |-> "def f(x: Int) =>"],
+            [n |-> "if-block",      ls |-> <<<<0, "if x > 1 then">>, <<1, "print(x)">>>>, hdr |-> "def f(x: Int) =>"],
+            [n |-> "if-else-block", ls |-> <<<<0, "if x > 1 then">>, <<1, "print(x)">>, <<0, "else">>, <<1, "print(0)">>>>, hdr |-> "def f(x: Int) =>"],
+            [n |-> "for-block",     ls |-> <<<<0, "for i in 0 .. 2 do">>, <<1, "print(i)">>>>, hdr |-> "def f(x: Int) =>"],
+            [n |-> "while-block",   ls |-> <<<<0, "while False do">>, <<1, "print(x)">>>>, hdr |-> "def f(x: Int) =>"],
+            [n |-> "nested-def",    ls |-> <<<<0, "def h(z: Int) -> Int =>">>, <<1, "z + 1">>>>, hdr |-> "def f(x: Int) =>"] }
+Body(s, ind) == IF "ls" \in DOMAIN s THEN [j \in 1..Len(s.ls) |-> L(ind + s.ls[j][1], s.ls[j][2])] ELSE <<L(ind, s.t)>>
+Hd == <<L(0, "class E: Exception"), L(0, "def g(v: Int) -> Int raise [E] => if v > 5 then raise E() else v")>>
+NotAtTop == {"return", "return-value", "raise", "if-return"}
 Programs(s) ==
-    { <<"mid",        Hd \o <<L(0, s.hdr), L(1, "print(0)"), L(1, s.t), L(1, "print(1)"), L(0, "print(2)")>>>>,
-      <<"last-dedent", Hd \o <<L(0, s.hdr), L(1, "print(0)"), L(1, s.t), L(0, "print(2)")>>>>,
-      <<"last-eof",    Hd \o <<L(0, "print(2)"), L(0, s.hdr), L(1, "print(0)"), L(1, s.t)>>>>,
-      <<"only-eof",    Hd \o <<L(0, s.hdr), L(1, s.t)>>>>,
-      <<"nested-mid",  Hd \o <<L(0, s.hdr), L(1, "if x > 0 then"), L(2, s.t), L(2, "print(1)"), L(1, "print(3)")>>>>,
-      <<"nested-last", Hd \o <<L(0, s.hdr), L(1, "if x > 0 then"), L(2, "print(0)"), L(2, s.t), L(1, "print(3)")>>>>,
-      <<"nested-eof",  Hd \o <<L(0, s.hdr), L(1, "if x > 0 then"), L(2, "print(0)"), L(2, s.t)>>>>,
-      <<"else-eof",    Hd \o <<L(0, s.hdr), L(1, "if x > 0 then"), L(2, "print(0)"), L(1, "else"), L(2, s.t)>>>>,
-      <<"top-mid",     Hd \o (IF s.n \in {"return", "return-value", "raise", "if-return"} THEN <<>> ELSE <<L(0, "def x := 1"), L(0, s.t), L(0, "print(2)")>>)>>,
-      <<"top-eof",     Hd \o (IF s.n \in {"return", "return-value", "raise", "if-return"} THEN <<>> ELSE <<L(0, "def x := 1"), L(0, s.t)>>)>> }
-Cases == UNION { { [stmt |-> s.n, position |-> p[1], lines |-> p[2]] : p \in Programs(s) } : s \in Stmts }
+    { <<"mid",        Hd \o <<L(0, s.hdr), L(1, "print(0)")>> \o Body(s, 1) \o <<L(1, "print(1)"), L(0, "print(2)")>>>>,
+      <<"last-dedent", Hd \o <<L(0, s.hdr), L(1, "print(0)")>> \o Body(s, 1) \o <<L(0, "print(2)")>>>>,
+      <<"last-eof",    Hd \o <<L(0, "print(2)"), L(0, s.hdr), L(1, "print(0)")>> \o Body(s, 1)>>,
+      <<"only-eof",    Hd \o <<L(0, s.hdr)>> \o Body(s, 1)>>,
+      <<"nested-mid",  Hd \o <<L(0, s.hdr), L(1, "if x > 0 then")>> \o Body(s, 2) \o <<L(2, "print(1)"), L(1, "print(3)")>>>>,
+      <<"nested-last", Hd \o <<L(0, s.hdr), L(1, "if x > 0 then"), L(2, "print(0)")>> \o Body(s, 2) \o <<L(1, "print(3)")>>>>,
+      <<"nested-last-2", Hd \o <<L(0, s.hdr), L(1, "if x > 0 then"), L(2, "print(0)")>> \o Body(s, 2) \o <<L(0, "print(3)")>>>>,
+      <<"nested-eof",  Hd \o <<L(0, s.hdr), L(1, "if x > 0 then"), L(2, "print(0)")>> \o Body(s, 2)>>,
+      <<"else-eof",    Hd \o <<L(0, s.hdr), L(1, "if x > 0 then"), L(2, "print(0)"), L(1, "else")>> \o Body(s, 2)>>,
+      <<"before-def",  Hd \o <<L(0, s.hdr), L(1, "print(0)")>> \o Body(s, 1) \o <<L(0, "def k(x: Int) => print(x)")>>>>,
+      <<"top-mid",     Hd \o (IF s.n \in NotAtTop THEN <<>> ELSE <<L(0, "def x := 1")>> \o Body(s, 0) \o <<L(0, "print(2)")>>)>>,
+      <<"top-eof",     Hd \o (IF s.n \in NotAtTop THEN <<>> ELSE <<L(0, "def x := 1")>> \o Body(s, 0))>> }
+\* members of a class body at every position of the body (a field, a field that forwards, a field without value, a method, a method
+\* with a block body)
+Members == { [n |-> "field",          ls |-> <<<<0, "def b: B := B()">>>>],
+             [n |-> "field-forward",  ls |-> <<<<0, "def b: B := B() forward g">>>>],
+             [n |-> "field-forward-2", ls |-> <<<<0, "def b: B := B() forward g, h">>>>],
+             [n |-> "field-int",      ls |-> <<<<0, "def n: Int := 1">>>>],
+             [n |-> "method",         ls |-> <<<<0, "def m(self) -> Int => 1">>>>],
+             [n |-> "method-block",   ls |-> <<<<0, "def m(self) -> Int =>">>, <<1, "print(1)">>, <<1, "2">>>>] }
+ClassHd == <<L(0, "class B"), L(1, "def g(self) -> Int => 1"), L(1, "def h(self) -> Int => 2")>>
+ClassPrograms(s) ==
+    { <<"class-mid",         ClassHd \o <<L(0, "class A"), L(1, "def q: Int := 0")>> \o Body(s, 1) \o <<L(1, "def r: Int := 3"), L(0, "print(2)")>>>>,
+      <<"class-first",       ClassHd \o <<L(0, "class A")>> \o Body(s, 1) \o <<L(1, "def r: Int := 3"), L(0, "print(2)")>>>>,
+      <<"class-last-dedent", ClassHd \o <<L(0, "class A"), L(1, "def q: Int := 0")>> \o Body(s, 1) \o <<L(0, "print(2)")>>>>,
+      <<"class-last-class",  ClassHd \o <<L(0, "class A"), L(1, "def q: Int := 0")>> \o Body(s, 1) \o <<L(0, "class C"), L(1, "def w: Int := 0")>>>>,
+      <<"class-only-eof",    ClassHd \o <<L(0, "class A")>> \o Body(s, 1)>>,
+      <<"class-last-eof",    ClassHd \o <<L(0, "class A"), L(1, "def q: Int := 0")>> \o Body(s, 1)>> }
+Cases == UNION { { [stmt |-> s.n, position |-> p[1], lines |-> p[2]] : p \in Programs(s) } : s \in Stmts \cup Blocks }
+         \cup UNION { { [stmt |-> s.n, position |-> p[1], lines |-> p[2]] : p \in ClassPrograms(s) } : s \in Members }
 VARIABLE c
 Init == c \in Cases
 Next == UNCHANGED c
